@@ -6,6 +6,9 @@ C20 — document-level composition of the resource loaders, in the order of `Doc
            build_formatting_structure (img / embed / object / list-style-image / content: url())
            layout_backgrounds (background-image)                                      [image fetches, one cache]
   write:   per page add_annotations (rel=attachment links, one fetch per distinct target), page.paint
+           (drawing an SVG image fetches its <image> elements through get_image_from_uri — same cache,
+           forced MIME type 'image/*' — and calls the fetcher directly for an external <use>; whatever is
+           raised while an SVG is drawn is caught by SVGImage.draw: the rest of that SVG is not drawn)
            metadata attachments (<link rel=attachment>)
            _use_references → get_x_object  (PNG images held as LazyLocalImage are read from disk here)
            pdf.write                       (JPEG images held as LazyLocalImage are read from disk here)
@@ -18,7 +21,7 @@ namespace Wp.Res.Doc
 open Wp Wp.Res
 
 inductive ImgKind where
-  | img | embed | object | background | listStyle | content
+  | img | embed | object | background | listStyle | content | borderImage
   deriving Repr, BEq, DecidableEq, Inhabited
 
 /-- A reference to an image in the document, with its *resolved* URL (`none`: attribute missing,
@@ -31,6 +34,13 @@ structure ImgRef where
   forcedMime : Option String     -- `type` attribute of embed / object
   deriving Repr, BEq, DecidableEq, Inhabited
 
+/-- What drawing an SVG image fetches, in document order of the SVG (svg/images.py `image`,
+svg/defs.py `get_use_tree`). -/
+inductive SvgItem where
+  | image (url : Option String)    -- `<image>`: resolved `href` (`none`: no href — the fetcher is called with `None`)
+  | useExternal (url : String)     -- `<use>` of another document: `svg.url_fetcher(url)` called directly, result unused
+  deriving Repr, BEq, DecidableEq, Inhabited
+
 structure Document where
   device : String
   styles : List StyleEl
@@ -40,6 +50,7 @@ structure Document where
   fetcher : Fetcher
   opts : Opts
   fs : Fs                        -- the local file system at write time
+  svgInfo : List (Nat × List SvgItem) := []   -- content id of an SVG ↦ what drawing it fetches
 
 /-- Replay the stylesheet trace with the real `add_font_face` at every `font` action. -/
 def interp (fetcher : Fetcher) :
@@ -106,6 +117,39 @@ def localPaths (cache : Cache) (fmt : String) : List String :=
     | some (.raster f (.lazyLocal p) _) => if f == fmt then some p else none
     | _ => none)).eraseDups
 
+/-- `SVGImage.draw`: the fetches made while one SVG image is drawn.  `get_image_from_uri(url=None)` uses the
+key `'None from-image'` and hands `None` to the fetcher (written `"None"` here). -/
+def drawSvg (fetcher : Fetcher) (opts : Opts) : Cache → List SvgItem → Cache × List Ev
+  | cache, [] => (cache, [])
+  | cache, .useExternal u :: rest =>
+    let (c, evs) := drawSvg fetcher opts cache rest
+    (c, .call u :: evs)
+  | cache, .image url :: rest =>
+    let (cache', evs, out) := getImage cache fetcher opts ⟨url.getD "None", .fromImage, some "image/*"⟩
+    match out with
+    | .error _ => (cache', evs)        -- `except BaseException` in `SVGImage.draw`: logged, drawing of this SVG stops
+    | .ok _ =>
+      let (c, evs') := drawSvg fetcher opts cache' rest
+      (c, evs ++ evs')
+
+/-- The SVG image shown by a reference (`<img>`, `<embed>`, `<object>`), if any: its content id. -/
+def svgOfRef (cache : Cache) (r : ImgRef) : Option Nat :=
+  match r.kind, r.url with
+  | .img, some u | .embed, some u | .object, some u =>
+    if u == "" then none
+    else match cache.find? (Req.key ⟨u, r.orient, r.forcedMime⟩) with
+      | some (some (.svg c)) => some c
+      | _ => none
+  | _, _ => none
+
+/-- `page.paint`: every SVG image shown is drawn, in document order. -/
+def paintSvgs (fetcher : Fetcher) (opts : Opts) (info : List (Nat × List SvgItem)) : Cache → List Nat → Cache × List Ev
+  | cache, [] => (cache, [])
+  | cache, c :: rest =>
+    let (c1, e1) := drawSvg fetcher opts cache ((info.lookup c).getD [])
+    let (c2, e2) := paintSvgs fetcher opts info c1 rest
+    (c2, e1 ++ e2)
+
 structure DocOut where
   cssLog : List Ev := []            -- stylesheet and font fetch events, in order
   rules : List Nat := []
@@ -115,6 +159,7 @@ structure DocOut where
   boxes : List (List BoxOut) := []
   render : Except Exc Unit := .ok ()
   attachLog : List Ev := []
+  paintLog : List Ev := []          -- fetches made while SVG images are drawn
   embedded : List Nat := []         -- metadata attachments embedded
   annots : List (Option Nat) := []  -- per attachment link: embedded content or none
   opens : List String := []         -- local files read behind the fetcher's back
@@ -136,7 +181,9 @@ def run (d : Document) : DocOut :=
       match annotAttachments d.fetcher [] d.annotAttachments with
       | (evs, .error e) => { o with attachLog := evs, write := .error e }
       | (evs, .ok annots) =>
-        let o := { o with attachLog := evs, annots := annots }
+        let painted := paintSvgs d.fetcher d.opts d.svgInfo cache (d.images.filterMap (svgOfRef cache))
+        let cache := painted.1
+        let o := { o with attachLog := evs, annots := annots, paintLog := painted.2 }
         match metadataAttachments d.fetcher d.metaAttachments with
         | (evs', .error e) => { o with attachLog := evs ++ evs', write := .error e }
         | (evs', .ok embedded) =>
